@@ -23,6 +23,12 @@ pub enum Pre {
     SqlPrepare,
     /// named protocol-level Parse (meaningful with the statement cache off)
     NamedParse,
+    /// client-issued RESET <guc> (resets only that one)
+    ResetGuc(u8),
+    ResetRole,
+    /// DEALLOCATE of a statement that may or may not exist (IF-less; only sent after SqlPrepare of the same name)
+    DeallocateOther,
+    Select,
 }
 
 #[derive(Clone, Debug, Serialize, Deserialize, PartialEq)]
@@ -67,7 +73,10 @@ pub enum Exit {
 pub struct Case {
     pub cache: bool,
     pub workers: u8,
-    pub pre: Vec<Pre>,
+    #[serde(default)]
+    pub session_mode: bool,
+    /// each inner list is sent as ONE simple query (so all of it runs in one checkout)
+    pub pre: Vec<Vec<Pre>>,
     pub state: State,
     pub exit: Exit,
 }
@@ -82,6 +91,10 @@ pub fn case_strategy() -> BoxedStrategy<Case> {
         1 => Just(Pre::SetRole),
         1 => Just(Pre::SqlPrepare),
         1 => Just(Pre::NamedParse),
+        2 => (0u8..GUCS.len() as u8).prop_map(Pre::ResetGuc),
+        1 => Just(Pre::ResetRole),
+        1 => Just(Pre::DeallocateOther),
+        1 => Just(Pre::Select),
     ];
     let state = prop_oneof![
         2 => Just(State::Idle),
@@ -108,8 +121,15 @@ pub fn case_strategy() -> BoxedStrategy<Case> {
         2 => Just(Exit::IdleTimeout),
         1 => Just(Exit::StmtTimeout),
     ];
-    (any::<bool>(), prop_oneof![Just(1u8), Just(2u8), Just(4u8)], prop::collection::vec(pre, 0..3), state, exit)
-        .prop_map(|(cache, workers, pre, state, exit)| Case { cache, workers, pre, state, exit })
+    (
+        any::<bool>(),
+        prop_oneof![Just(1u8), Just(2u8), Just(4u8)],
+        prop::bool::weighted(0.25),
+        prop::collection::vec(prop::collection::vec(pre, 1..4), 0..3),
+        state,
+        exit,
+    )
+        .prop_map(|(cache, workers, session_mode, pre, state, exit)| Case { cache: cache && !session_mode, workers, session_mode, pre, state, exit })
         .boxed()
 }
 
@@ -147,6 +167,9 @@ fn config(mocks: &[crate::mock::MockServer], c: &Case) -> PgcatConfig {
     }
     let servers = vec![ServerDef { host: mocks[0].ip.clone(), port: mocks[0].port, role: "primary".into() }];
     let mut pool = pgc::simple_pool("db", "u", "pw", 1, servers);
+    if c.session_mode {
+        pool.set("pool_mode", "\"session\"");
+    }
     if c.cache {
         pool.set("prepared_statements_cache_size", "8");
     }
@@ -230,18 +253,35 @@ async fn run_case(c: &Case, ctx: &mut WorkerCtx) -> Outcome {
         }
     };
     // ---- session state outside a transaction
-    for p in &c.pre {
-        let req = match p {
-            Pre::SetGuc(i, val) => Req::Simple(vec![St::new(Sk::Set(GUCS[*i as usize % GUCS.len()].into(), val.clone()))]),
-            Pre::SetRole => Req::Simple(vec![St::new(Sk::SetRole("other_role".into()))]),
-            Pre::SqlPrepare => Req::Simple(vec![St::new(Sk::Prepare("vict_stmt".into()))]),
-            Pre::NamedParse => Req::Batch(vec![prog::Ext::Parse("vict_named".into(), St::new(Sk::Select), vec![])]),
-        };
-        let x = prog::run_req(&mut v, &req, t0).await;
-        if !matches!(x.end, ReadEnd::Ready(_)) {
-            o.inconclusive = Some(format!("victim pre-state request ended {:?}", x.end));
-            env.finish().await;
-            return o;
+    for group in &c.pre {
+        let mut stmts: Vec<St> = vec![];
+        let mut named_parse = false;
+        for p in group {
+            match p {
+                Pre::SetGuc(i, val) => stmts.push(St::new(Sk::Set(GUCS[*i as usize % GUCS.len()].into(), val.clone()))),
+                Pre::SetRole => stmts.push(St::new(Sk::SetRole("other_role".into()))),
+                Pre::SqlPrepare => stmts.push(St::new(Sk::Raw(format!("PREPARE vict_stmt_{} AS SELECT 1", v.next_stmt + stmts.len() as u32)))),
+                Pre::NamedParse => named_parse = true,
+                Pre::ResetGuc(i) => stmts.push(St::new(Sk::Raw(format!("RESET {}", GUCS[*i as usize % GUCS.len()])))),
+                Pre::ResetRole => stmts.push(St::new(Sk::Raw("RESET ROLE".into()))),
+                Pre::DeallocateOther => stmts.push(St::new(Sk::Raw("DEALLOCATE vict_never_prepared".into()))),
+                Pre::Select => stmts.push(St::new(Sk::Select)),
+            }
+        }
+        let mut reqs = vec![];
+        if !stmts.is_empty() {
+            reqs.push(Req::Simple(stmts));
+        }
+        if named_parse {
+            reqs.push(Req::Batch(vec![prog::Ext::Parse(format!("vict_named_{}", v.next_stmt), St::new(Sk::Select), vec![])]));
+        }
+        for req in reqs {
+            let x = prog::run_req(&mut v, &req, t0).await;
+            if !matches!(x.end, ReadEnd::Ready(_)) {
+                o.inconclusive = Some(format!("victim pre-state request ended {:?}", x.end));
+                env.finish().await;
+                return o;
+            }
         }
     }
     // ---- server state at the exit point
@@ -372,6 +412,12 @@ async fn run_case(c: &Case, ctx: &mut WorkerCtx) -> Outcome {
             tokio::time::sleep(Duration::from_millis(260)).await;
         }
     }
+    if c.session_mode && !victim_left {
+        // in session mode the victim owns the only server until it disconnects
+        v.send(&proto::terminate()).await;
+        v.close();
+        victim_left = true;
+    }
     env.shared.ctl("victim exit");
     // victims that sent a bad message and are still connected: give pgcat a moment, then leave too
     // (a victim that stays connected and holds the only connection would block the probe for ever,
@@ -402,6 +448,11 @@ async fn run_case(c: &Case, ctx: &mut WorkerCtx) -> Outcome {
             o.fail("probe-read-foreign-reply", format!("probe: {} ; reply codes {:?} errors {:?}", e, x.reply.iter().map(|m| m.code as char).collect::<String>(), crate::cli::errors(&x.reply)));
             break;
         }
+        if x.reply.iter().any(|m| m.code == b'E' && proto::error_code(&m.body) == "58000") {
+            // pooler-generated error (no connection available): about C04/C07, not about cleanliness
+            probe_problem = Some(format!("probe got pooler error {:?}", crate::cli::errors(&x.reply)));
+            break;
+        }
         if x.reply.iter().any(|m| m.code == b'E') {
             o.fail("probe-got-error", format!("probe's plain SELECT answered with error {:?}", crate::cli::errors(&x.reply)));
             break;
@@ -414,6 +465,12 @@ async fn run_case(c: &Case, ctx: &mut WorkerCtx) -> Outcome {
     o.label(&format!("state:{}", state_name(&c.state)));
     o.label(&format!("exit:{}", exit_name(&c.exit)));
     o.nontrivial = c.state != State::Idle || !c.pre.is_empty();
+    if c.session_mode {
+        o.label("session_mode");
+    }
+    if c.pre.iter().any(|g| g.len() > 1) {
+        o.label("multi_statement_session_state");
+    }
     // reused or replaced?
     let conns: std::collections::HashSet<u64> = log
         .iter()
